@@ -285,6 +285,59 @@ func TestC17_DiscoveryDense(t *testing.T) {
 	})
 }
 
+// TestC17_SharedChunkDeletes: three files that share a data chunk (one of them contains it twice) are
+// downloaded or uploaded, then deleted one after the other; the survivors' records must keep telling
+// the truth. Backbone steps kept with probability 3/4, 0-2 free ops in between.
+func TestC17_SharedChunkDeletes(t *testing.T) {
+	r := evid.Get(id)
+	evid.Finish(t, r)
+	evid.Checks(50)
+	rapid.Check(t, func(t *rapid.T) {
+		x := rapid.IntRange(0, 2).Draw(t, "x")
+		y := (x + 1) % 3
+		files := []nodelite.FileSpec{
+			{Tags: []int{x, x}, Tail: rapid.SampledFrom([]int{0, 9}).Draw(t, "tail0")},
+			{Tags: []int{x}, Tail: rapid.SampledFrom([]int{9, 4096}).Draw(t, "tail1"), Salt: 1},
+			{Tags: []int{y, x}, Tail: rapid.SampledFrom([]int{0, 9}).Draw(t, "tail2")},
+		}
+		if rapid.Bool().Draw(t, "swap") {
+			files[0], files[2] = files[2], files[0]
+		}
+		c := nlhist.Case{Files: files}
+		free := nlhist.Gen(t, nlhist.GenOptions{MaxFiles: 3, MaxOps: 12, MaxBlocks: 2,
+			Kinds: []string{"fetch", "touch", "read", "restart", "discover", "stray", "upload"}}).Ops
+		get := func(f int) nlhist.Op {
+			if rapid.IntRange(0, 3).Draw(t, "how") == 0 {
+				return nlhist.Op{K: "upload", F: f}
+			}
+			return nlhist.Op{K: "fetch", F: f}
+		}
+		order := rapid.Permutation([]int{0, 1, 2}).Draw(t, "order")
+		backbone := []nlhist.Op{get(0), get(1), get(2), {K: "delete", F: order[0]}, {K: "delete", F: order[1]}, {K: "restart"}, {K: "delete", F: order[2]}}
+		for _, b := range backbone {
+			n := rapid.IntRange(0, 2).Draw(t, "gap")
+			if n > len(free) {
+				n = len(free)
+			}
+			c.Ops = append(c.Ops, free[:n]...)
+			free = free[n:]
+			if rapid.IntRange(0, 3).Draw(t, "keep") != 0 {
+				c.Ops = append(c.Ops, b)
+			}
+		}
+		sig, err, st := run(c, false)
+		if err != nil {
+			t.Fatalf("%s", evid.Violation(id, sig, fmt.Sprintf("%v\ncase=%+v", err, c)))
+		}
+		cls := []string{"shared-chunk-deletes"}
+		for k := range st.classes {
+			cls = append(cls, k)
+		}
+		r.Case(evid.Hash64("shdel", c), st.classes["delete"], cls...)
+		r.Sample(c)
+	})
+}
+
 func c2() []nodelite.FileSpec {
 	return []nodelite.FileSpec{{Tags: []int{0, 1}, Tail: 9}, {Tags: []int{2}, Tail: 0}}
 }
